@@ -23,8 +23,10 @@ Frame ==
     [] Ev.e = "S_WU"       -> SWindow(Ev.sid, Ev.n)
     [] Ev.e = "QUIESCENT"  -> IF goaway >= 0 /\ ~goawayActed THEN GoawayActed ELSE UNCHANGED vars
     [] Ev.e = "DELIVER_GOAWAY" -> UNCHANGED vars
+    [] Ev.e = "C_CLOSE" -> CClose({Ev.own[j] : j \in DOMAIN Ev.own})
     [] Ev.e = "RET" ->
-         /\ UNCHANGED vars
+         /\ returned' = IF Ev.sid # 0 THEN returned \cup {Ev.sid} ELSE returned
+         /\ UNCHANGED <<pendSet, limit, acked, iws, mfs, st, swin, cwin, sentBody, respHead, respLen, goaway, goawayActed, credit, lastStream>>
          \* C03: every complete transmission of the caller's request - a transparent re-send on another
          \* connection included - carried exactly the caller's body
          /\ ("reqok" \in DOMAIN Ev) => Ev.reqok
